@@ -156,7 +156,10 @@ func (f *File) RowContent() []string {
 	if f.currentRow == nil {
 		return []string{}
 	}
-	return f.currentRow.cells
+	// The CSV reader reuses the cells slice across rows, so return a copy.
+	cells := make([]string, len(f.currentRow.cells))
+	copy(cells, f.currentRow.cells)
+	return cells
 }
 
 func (f *File) RowNumber() int {
